@@ -16,10 +16,13 @@ checks = rest[rest.index("--") + 1:]
 tier = os.environ.get("SEED_TIER", "quick")
 out = os.path.join("/verif/seeded", name)
 os.makedirs(out, exist_ok=True)
-shutil.copy(os.path.join(src, "MUTANT_patch.diff"), os.path.join(out, "patch.diff"))
-shutil.copy(os.path.join(src, "MUTANT_demo.py"), os.path.join(out, "demo.py"))
-if os.path.exists(os.path.join(src, "MUTANT_notes.md")):
-    shutil.copy(os.path.join(src, "MUTANT_notes.md"), os.path.join(out, "notes.md"))
+if src != "-":  # "-": re-verify an already recorded change
+    shutil.copy(os.path.join(src, "MUTANT_patch.diff"), os.path.join(out, "patch.diff"))
+    shutil.copy(os.path.join(src, "MUTANT_demo.py"), os.path.join(out, "demo.py"))
+    if os.path.exists(os.path.join(src, "MUTANT_notes.md")):
+        shutil.copy(os.path.join(src, "MUTANT_notes.md"), os.path.join(out, "notes.md"))
+elif not needs and os.path.exists(os.path.join(out, "meta.json")):
+    needs = json.load(open(os.path.join(out, "meta.json")))["needs_to_manifest"]
 
 tmp = tempfile.mkdtemp(prefix="seed_", dir="/tmp")
 wt = os.path.join(tmp, "repo")
